@@ -20,8 +20,10 @@ Types: ord (an abstract totally ordered type, comparisons go through the paramet
 bool, rat, optrat (Optional number), optx (any Optional), str, vals (List Val).
 
 Further schemes in this file: TrEdit (filters.DataEdit), TrAct (order of actions of set_output / eval_block /
-Circuit.abort / restore), TrSend (ExtEvent.send); in tools/py2lean_dispatch.py: TrProg (control flow of
-SBlock.event and Event.send as programs in a state + exception + early-return monad, property C11).
+Circuit.abort / init_from_persistent_data), TrSend (ExtEvent.send); in tools/py2lean_dispatch.py: TrProg (control flow of
+SBlock.event and Event.send as programs in a state + exception + early-return monad, property C11);
+tools/py2lean_fsm.py translates the control flow of `FSM._ctx_event` into a program over named primitives
+(Gen/TranslatedFsm.lean, tie theorems in EdzedProps/C04.lean `TrTie`); tools/py2lean_sig.py: CBlock.check_signature (C15).
 
 Usage: py2lean.py <output file>
 """
@@ -1164,6 +1166,8 @@ def main(outfile):
     py2lean_dispatch.main(os.path.join(os.path.dirname(outfile), 'TranslatedDispatch.lean'),
                           dict(Untranslatable=Untranslatable, node_path=node_path, fn_ast=fn_ast, emit=emit,
                                write_if_changed=write_if_changed, block=block))
+    import py2lean_fsm
+    py2lean_fsm.main_fsm(os.path.join(os.path.dirname(outfile), 'TranslatedFsm.lean'), sys.modules[__name__])
 
 
 if __name__ == '__main__':
